@@ -89,12 +89,21 @@ func c11Sibling(p *chk.Prog, r *chk.Report) {
 			if !a.IsWrite() || a.Fn == nil {
 				continue
 			}
-			if a.Fn == as && (a.Kind == "elem" || a.Kind == "incdec" || a.Kind == "assign") {
+			if a.Fn == as && (a.Kind == "elem" || a.Kind == "incdec" || a.Kind == "assign" || a.Kind == "method:Insert") {
 				written[m] = true
 			}
-			if a.Fn == un && (a.Kind == "delete" || a.Kind == "incdec") {
+			if a.Fn == un && (a.Kind == "delete" || a.Kind == "incdec" || a.Kind == "method:Delete") {
 				cleaned[m] = true
 			}
+		}
+	}
+	// an element that is a set is written / cleaned through its methods
+	for _, m := range allocMaps {
+		if len(as.Graph().FindPat("RECV."+m+"[K].Insert(V)", chk.H("RECV", isRecv(as)))) > 0 {
+			written[m] = true
+		}
+		if len(un.Graph().FindPat("RECV."+m+"[K].Delete(V)", chk.H("RECV", isRecv(un)))) > 0 {
+			cleaned[m] = true
 		}
 	}
 	for _, m := range allocMaps {
@@ -103,40 +112,85 @@ func c11Sibling(p *chk.Prog, r *chk.Report) {
 	// assign: per-address must-pass
 	ag := as.Graph()
 	svc, al := isParamIdx(as, 0), isParamIdx(as, 1)
-	for _, rs := range as.RangeLoops(func(e ast.Expr) bool { return as.MatchWith("AL.ips", e, chk.H("AL", al)) != nil }) {
+	// one loop over the allocation's addresses, or several (the bookkeeping split by concern): every update is made for
+	// every address by one of them
+	ipLoops := as.RangeLoops(func(e ast.Expr) bool { return as.MatchWith("AL.ips", e, chk.H("AL", al)) != nil })
+	type mustT struct {
+		name   string
+		stmt   func(ip func(ast.Expr) bool) func(ast.Node) bool
+		except func(v4, v6 chk.Guard) chk.Guard
+	}
+	musts := []mustT{
+		{"tenant", func(ip func(ast.Expr) bool) func(ast.Node) bool {
+			setIns := isSetInsert(as)
+			pat := as.IsAssignPat("RECV.servicesOnIP[IP.String()][S]", "true", chk.H("IP", ip), chk.H("S", svc))
+			ins := as.ContainsPat("RECV.servicesOnIP[IP.String()].Insert(S)", chk.H("IP", ip), chk.H("S", svc))
+			return func(n ast.Node) bool {
+				if pat(n) || ins(n) {
+					return true
+				}
+				if a2, ok := n.(*ast.AssignStmt); ok && setIns(n) {
+					return as.MatchWith("RECV.servicesOnIP[IP.String()][S]", a2.Lhs[0], chk.H("IP", ip), chk.H("S", svc)) != nil
+				}
+				return false
+			}
+		}, func(v4, v6 chk.Guard) chk.Guard { return chk.NoGuard }},
+		{"sharing-key", func(ip func(ast.Expr) bool) func(ast.Node) bool {
+			return as.IsAssignPat("RECV.sharingKeyForIP[IP.String()]", "&AL.key", chk.H("IP", ip), chk.H("AL", al))
+		}, func(v4, v6 chk.Guard) chk.Guard { return chk.NoGuard }},
+		{"in-use", func(ip func(ast.Expr) bool) func(ast.Node) bool {
+			return isIncDec(as, "RECV.poolIPsInUse[AL.pool][IP.String()]", token.INC, chk.H("IP", ip), chk.H("AL", al))
+		}, func(v4, v6 chk.Guard) chk.Guard { return chk.NoGuard }},
+		{"in-use-v6", func(ip func(ast.Expr) bool) func(ast.Node) bool {
+			return isIncDec(as, "RECV.poolIPV6InUse[AL.pool][IP.String()]", token.INC, chk.H("IP", ip), chk.H("AL", al))
+		}, func(v4, v6 chk.Guard) chk.Guard { return v4 }},
+		{"in-use-v4", func(ip func(ast.Expr) bool) func(ast.Node) bool {
+			return isIncDec(as, "RECV.poolIPV4InUse[AL.pool][IP.String()]", token.INC, chk.H("IP", ip), chk.H("AL", al))
+		}, func(v4, v6 chk.Guard) chk.Guard { return v6 }},
+	}
+	if len(ipLoops) == 0 {
+		x.Fail("assign:address-loop", as.Pos(), "no loop over the allocation's addresses")
+	}
+	for _, m := range musts {
+		okM := false
+		for _, rs := range ipLoops {
+			ip := rangeVal(as, rs)
+			v6 := ag.GPat(true, "IP.To4() == nil", chk.H("IP", ip))
+			v4 := ag.GPat(false, "IP.To4() == nil", chk.H("IP", ip))
+			if !loopSkipsWithout(ag, rs, m.stmt(ip), m.except(v4, v6)) && !loopHasBreak(ag, rs) {
+				okM = true
+			}
+		}
+		pos := as.Pos()
+		if len(ipLoops) > 0 {
+			pos = ipLoops[0].Pos()
+		}
+		x.Check("assign:every-address:"+m.name, pos, okM, "", "assign can record an address without updating "+m.name)
+	}
+	okPorts := false
+	for _, rs := range ipLoops {
 		ip := rangeVal(as, rs)
 		v6 := ag.GPat(true, "IP.To4() == nil", chk.H("IP", ip))
 		v4 := ag.GPat(false, "IP.To4() == nil", chk.H("IP", ip))
-		must := []struct {
-			name   string
-			stmt   func(ast.Node) bool
-			except chk.Guard
-		}{
-			{"tenant", as.IsAssignPat("RECV.servicesOnIP[IP.String()][S]", "true", chk.H("IP", ip), chk.H("S", svc)), chk.NoGuard},
-			{"sharing-key", as.IsAssignPat("RECV.sharingKeyForIP[IP.String()]", "&AL.key", chk.H("IP", ip), chk.H("AL", al)), chk.NoGuard},
-			{"in-use", isIncDec(as, "RECV.poolIPsInUse[AL.pool][IP.String()]", token.INC, chk.H("IP", ip), chk.H("AL", al)), chk.NoGuard},
-			{"in-use-v6", isIncDec(as, "RECV.poolIPV6InUse[AL.pool][IP.String()]", token.INC, chk.H("IP", ip), chk.H("AL", al)), v4},
-			{"in-use-v4", isIncDec(as, "RECV.poolIPV4InUse[AL.pool][IP.String()]", token.INC, chk.H("IP", ip), chk.H("AL", al)), v6},
-		}
-		for _, m := range must {
-			x.Check("assign:every-address:"+m.name, rs.Pos(), !loopSkipsWithout(ag, rs, m.stmt, m.except) && !loopHasBreak(ag, rs), "", "assign can record an address without updating "+m.name)
-		}
 		// the family increments are on the right side of the To4 test
-		for _, s := range ag.Find(isIncDec(as, "RECV.poolIPV6InUse[AL.pool][IP.String()]", token.INC)) {
+		for _, s := range ag.Find(isIncDec(as, "RECV.poolIPV6InUse[AL.pool][IP.String()]", token.INC, chk.H("IP", ip))) {
 			x.Check("assign:v6-counter-only-for-v6", s.Pos(), ag.Dominated(s, v6), "", "the IPv6 in-use counter is incremented for an IPv4 address")
 		}
-		for _, s := range ag.Find(isIncDec(as, "RECV.poolIPV4InUse[AL.pool][IP.String()]", token.INC)) {
+		for _, s := range ag.Find(isIncDec(as, "RECV.poolIPV4InUse[AL.pool][IP.String()]", token.INC, chk.H("IP", ip))) {
 			x.Check("assign:v4-counter-only-for-v4", s.Pos(), ag.Dominated(s, v4), "", "the IPv4 in-use counter is incremented for an IPv6 address")
 		}
 		// ports
-		okPorts := false
 		for _, prs := range as.RangeLoops(func(e ast.Expr) bool { return as.MatchWith("AL.ports", e, chk.H("AL", al)) != nil }) {
 			if chk.InBody(rs, prs) {
-				okPorts = !loopCanSkip(ag, prs, as.IsAssignPat("RECV.portsInUse[IP.String()][P]", "S", chk.H("IP", ip), chk.H("P", rangeVal(as, prs)), chk.H("S", svc)))
+				okPorts = okPorts || !loopCanSkip(ag, prs, as.IsAssignPat("RECV.portsInUse[IP.String()][P]", "S", chk.H("IP", ip), chk.H("P", rangeVal(as, prs)), chk.H("S", svc)))
 			}
 		}
-		x.Check("assign:every-address:ports", rs.Pos(), okPorts, "", "assign does not record every port of the allocation on every address")
 	}
+	posP := as.Pos()
+	if len(ipLoops) > 0 {
+		posP = ipLoops[0].Pos()
+	}
+	x.Check("assign:every-address:ports", posP, okPorts, "", "assign does not record every port of the allocation on every address")
 	// Unassign
 	ug := un.Graph()
 	usvc := isParamIdx(un, 0)
@@ -155,7 +209,10 @@ func c11Sibling(p *chk.Prog, r *chk.Report) {
 		stmt   func(ast.Node) bool
 		except chk.Guard
 	}{
-		{"tenant", un.ContainsPat("delete(RECV.servicesOnIP[IP.String()], S)", chk.H("IP", ip), chk.H("S", usvc)), chk.NoGuard},
+		{"tenant", func(n ast.Node) bool {
+			return un.ContainsPat("delete(RECV.servicesOnIP[IP.String()], S)", chk.H("IP", ip), chk.H("S", usvc))(n) ||
+				un.ContainsPat("RECV.servicesOnIP[IP.String()].Delete(S)", chk.H("IP", ip), chk.H("S", usvc))(n)
+		}, chk.NoGuard},
 		{"in-use", isIncDec(un, "RECV.poolIPsInUse[AL.pool][IP.String()]", token.DEC, chk.H("IP", ip), chk.H("AL", ual)), chk.NoGuard},
 		{"in-use-v6", isIncDec(un, "RECV.poolIPV6InUse[AL.pool][IP.String()]", token.DEC, chk.H("IP", ip), chk.H("AL", ual)), v4},
 		{"in-use-v4", isIncDec(un, "RECV.poolIPV4InUse[AL.pool][IP.String()]", token.DEC, chk.H("IP", ip), chk.H("AL", ual)), v6},
@@ -169,7 +226,7 @@ func c11Sibling(p *chk.Prog, r *chk.Report) {
 	for _, s := range ug.Find(isIncDec(un, "RECV.poolIPV4InUse[AL.pool][IP.String()]", token.DEC)) {
 		x.Check("Unassign:v4-counter-only-for-v4", s.Pos(), ug.Dominated(s, v4), "", "the IPv4 in-use counter is decremented for an IPv6 address")
 	}
-	okPorts := false
+	okPorts = false
 	for _, prs := range un.RangeLoops(func(e ast.Expr) bool { return un.MatchWith("AL.ports", e, chk.H("AL", ual)) != nil }) {
 		if chk.InBody(rs, prs) {
 			okPorts = !loopCanSkip(ug, prs, un.ContainsPat("delete(RECV.portsInUse[IP.String()], P)", chk.H("IP", ip), chk.H("P", rangeVal(un, prs)))) && !loopHasBreak(ug, prs)
@@ -287,6 +344,53 @@ func c11Refresh(p *chk.Prog, r *chk.Report) {
 			inst := g.Find(sp.IsAssignPat("RECV.pools", "NP", chk.H("NP", newPools)))
 			if len(inst) == 1 {
 				okRemoved = okRemoved && g.AfterLoop(inst[0], rs)
+			}
+		}
+		if !okRemoved {
+			// two phases: the names of the removed pools are collected first (all of them), then every collected name has
+			// its metrics and counters dropped, and the whole list is reported as changed
+			isOld := func(e ast.Expr) bool { return sp.MatchWith("RECV.pools.ByName", e, chk.H("RECV", isRecv(sp))) != nil }
+			gone := func(e ast.Expr) bool {
+				return filteredKeys(sp, g, e, isOld, func(rs *ast.RangeStmt, pos bool) chk.Guard {
+					return g.GPat(pos, "NP.ByName[K] == nil", chk.H("NP", newPools), chk.H("K", rangeKey(sp, rs)))
+				})
+			}
+			for _, rs := range sp.RangeLoops(gone) {
+				v := rangeVal(sp, rs)
+				both := chk.GAnd(chk.GEvent(sp.ContainsPat("deleteStatsFor(K)", chk.H("K", v))), chk.GEvent(sp.ContainsPat("delete(RECV.poolToCounters, K)", chk.H("K", v))))
+				ok2 := !loopHasBreak(g, rs)
+				ends := g.LoopIteration(rs, both)
+				for _, e := range ends {
+					if !e.OK || e.Break {
+						ok2 = false
+					}
+				}
+				// reported as changed: the list is appended as a whole, outside any condition
+				rep := false
+				for _, s := range g.Find(func(n ast.Node) bool {
+					as, isAs := n.(*ast.AssignStmt)
+					if !isAs || len(as.Lhs) != 1 || len(as.Rhs) != 1 {
+						return false
+					}
+					call, isCall := ast.Unparen(as.Rhs[0]).(*ast.CallExpr)
+					if !isCall || len(call.Args) != 2 || !call.Ellipsis.IsValid() || !sp.SameExpr(call.Args[0], as.Lhs[0]) {
+						return false
+					}
+					id, isId := call.Fun.(*ast.Ident)
+					return isId && id.Name == "append" && sp.SameExpr(call.Args[1], rs.X)
+				}) {
+					if sp.LoopOf(s.Node) == nil && !g.MustPass(chk.Site{}, nil, true, func(n ast.Node) bool { return n == s.Top }).Found {
+						rep = true
+					}
+				}
+				inst := g.Find(sp.IsAssignPat("RECV.pools", "NP", chk.H("NP", newPools)))
+				okRemoved = ok2 && len(ends) > 0 && rep && len(inst) == 1
+				// the old pool set is walked before the new one is installed
+				for _, ol := range sp.RangeLoops(isOld) {
+					if len(inst) == 1 && !g.AfterLoop(inst[0], ol) {
+						okRemoved = false
+					}
+				}
 			}
 		}
 		x.Check("SetPools:removed-pools-forgotten", sp.Pos(), okRemoved, "", "counters/metrics of a pool that disappeared from the configuration are kept (or not reported as changed)")
